@@ -958,10 +958,60 @@ def _unsized(ctx, cases=None):
             ctx.violate(bad[0], (_unsized_run(ctx, small) or bad)[1], small)
 
 
+# ---------------------------------------------------------------- existing but empty files (statement-level oracle only)
+def _emptyfile_run(ctx, case):
+    """a write never replaces an existing file - also not one of length zero (a placeholder made by mkstemp, the object's
+    own file truncated by someone else)"""
+    from pydl.pydlutils.yanny import yanny
+    d = os.path.join(ctx.tmpdir(), 'e%d' % next(_counter))
+    os.makedirs(d)
+    try:
+        fn = os.path.join(d, 'a.par')
+        with open(fn, 'w') as f:
+            f.write('mjd 54321\ntypedef struct {\n int id;\n char name[6];\n} OBJ;\n\nOBJ 1 abc\nOBJ 2 "d e"\n')
+        par = yanny(fn, raw=case['raw'])
+        before = open(fn, 'rb').read()
+        if case['target'] == 'other':
+            tgt = os.path.join(d, 'placeholder.par')
+            open(tgt, 'w').close()
+        else:
+            tgt = fn
+            open(fn, 'w').close()      # the object's own file truncated to zero bytes
+        try:
+            par.write(tgt if case['how'] == 'named' or case['target'] == 'other' else None)
+            raised = False
+        except Exception:
+            raised = True
+        size = os.path.getsize(tgt)
+        if not raised or size != 0:
+            return ('emptyfile:write-replaced-existing-file',
+                    'write(%s) onto an existing file of length zero %s and left %d bytes in it' % (
+                        'other name' if case['target'] == 'other' else 'own file', 'raised' if raised else 'did not raise', size))
+        if par.filename != fn:
+            return ('emptyfile:refused-write-rebinds', 'after the refused write the object is bound to %r' % par.filename)
+        if case['target'] == 'other' and open(fn, 'rb').read() != before:
+            return ('emptyfile:refused-write-changed-own-file', 'the refused write changed the object\'s own file')
+    finally:
+        shutil.rmtree(d, ignore_errors=True)
+    return None
+
+
+def _emptyfile(ctx):
+    for raw in (False, True):
+        for target in ('other', 'own'):
+            for how in ('named', 'default'):
+                c = {'stream': 'emptyfile', 'raw': raw, 'target': target, 'how': how}
+                ctx.seen(c)
+                bad = _emptyfile_run(ctx, c)
+                if bad:
+                    ctx.violate(bad[0], bad[1], c)
+
+
 def run(ctx):
     core.audit(ctx, LEAN_MODULES, THEOREMS)
     _ensure_driver()
     _unsized(ctx)
+    _emptyfile(ctx)
     rng = ctx.rng
     cases = directed_cases()
     n = ctx.n(1200, 20000)
